@@ -8,7 +8,7 @@ func init() {
 		Level: "model_checking",
 		Explanation: "differential bounded symbolic execution: on the same symbolic input the three format loaders and autometa.Load are executed in one path; auto's result is asserted equal (format, dimensions, depth, ICC bytes, ICC error-ness) to that of the first specific loader that succeeded, an error without metadata when none did, and its stream must replay the input. Inputs: N arbitrary symbolic bytes, skeleton files of all three formats (with and without ICC) including every truncation, and polyglots (one format's signature followed by another format's body)",
 		Bounds: func(tier string) map[string]interface{} {
-			return map[string]interface{}{"arbitrary_bytes_N": 12, "skeletons": "PNG (k<=1), PNG+iCCP, JPEG (k<=1), JPEG + 2 ICC chunks (seq,total <= 3), WebP VP8/VP8L/VP8X(+ICCP), each complete and at every truncation length", "polyglots": "3 signatures x 3 bodies", "outside": "inputs beyond these shapes; zlib stubbed (deterministic in its input)"}
+			return map[string]interface{}{"arbitrary_bytes_N": 12, "skeletons": "PNG (k<=1), PNG+iCCP, JPEG (k<=1), JPEG + 2 ICC chunks (seq,total <= 3), JPEG with a second, possibly too short frame header, WebP VP8/VP8L/VP8X(+ICCP), each complete and at every truncation length", "polyglots": "3 signatures x 3 bodies", "outside": "inputs beyond these shapes; zlib stubbed (deterministic in its input)"}
 		},
 		Runs: func(tier string, seed int64) []*Run {
 			return []*Run{
